@@ -134,6 +134,23 @@ def slowtail_case(rng, ending, n=200, slow=0.02, daemon=False, prog_exit=False):
     return c
 
 
+def unconf_case(rng, variant, via='direct', ending=None, n=None):
+    """a parent program that does not observe records through a handler on the root logger: `bare` - logging is
+    not configured at all (Python's handler of last resort writes the message of WARNING+ records to stderr);
+    `noprop` - the root has a stream handler, but the logger `cfg.b` has propagate=False and no handler of its
+    own (its records go to the handler of last resort).  The program first emits the records ITSELF, then lets
+    the child emit the same records; its own stderr is captured on the side: what the child's records produce
+    there must be, line for line, what the same records produced when emitted in the parent."""
+    if via == 'pool':
+        c = pool_case(rng, n or rng.choice([5, 40]), 20)
+    else:
+        c = _mk(rng, n or rng.choice([3, 30, 200]), rng.choice([10, 60]), ending=ending or rng.choice(['ret', 'raise', 'exit3']),
+                gap=0, late=False)
+    c['unconf'] = variant
+    c['root_level'] = 30        # the level of an unconfigured root logger
+    return c
+
+
 def level_state(case, i):
     """levels in force when record i is emitted and handled: the initial configuration plus every change whose cut
     lies before i"""
@@ -192,6 +209,8 @@ def case_class(case):
     vol = n_total(case) * (case['size'] if not case.get('sizes') else sum(case['sizes']) // len(case['sizes']))
     st = case.get('stall')
     tag = '' if not st else ('-burst' if n_total(case) >= 10000 else '-stalled-parent')
+    if case.get('unconf'):
+        tag += '-unconfigured-' + case['unconf']
     if case.get('levels'):
         tag += '-levelchange'
     if case.get('prog_exit'):
@@ -212,7 +231,7 @@ def monitor(case, res):
     if res.get('infra'):
         return mon
     cls = case_class(case)
-    exp = expected(case)
+    exp = res['exp_self'] if case.get('unconf') and res.get('exp_self') is not None else expected(case)
     got = res.get('handled') or []
     if not res.get('joined'):
         mon.append(dict(prop='C20', rule='hang',
@@ -265,6 +284,13 @@ def run_case(case):
         return res
     if case.get('prog_exit') and res.get('handled') is None:
         res['handled'] = [int(x) for x in (res.get('side') or '').split()]
+    if case.get('unconf'):
+        res['exp_self'], res['handled'] = parse_stderr(res.get('side') or '')
+        if n_total(case) >= 12 and not res['exp_self']:
+            res['infra_error'] = 'the parent program\'s own emission left nothing on its captured stderr: ' + (res.get('side') or '')[:300]
+            res.setdefault('monitors', [])
+            res.setdefault('events', [])
+            return res
     res.pop('side', None)
     res['monitors'] = monitor(case, res)
     h = res.get('handled') or []
@@ -273,9 +299,30 @@ def run_case(case):
     return res
 
 
+def parse_stderr(text):
+    """the parent program's stderr -> (ids the parent's own emission produced, ids the child's records produced);
+    a child line counts under its id only if it is rendered exactly like the parent's own line for that record"""
+    import re
+    own, child = {}, []
+    order = []
+    for line in text.splitlines():
+        m = re.match(r'^(.*?)(self|child)\|(\d+)\|(x*)$', line)
+        if not m:
+            continue
+        pre, tag, i, pad = m.group(1), m.group(2), int(m.group(3)), m.group(4)
+        if tag == 'self':
+            own[i] = (pre, pad)
+            order.append(i)
+        else:
+            child.append(i if own.get(i) == (pre, pad) else -1 - i)
+    return order, child
+
+
 def model_lines(cid, case, res):
     n = n_total(case)
     fail = [i for i in range(n) if not passes(case, i)]
+    if case.get('unconf') and res.get('exp_self') is not None:
+        fail = sorted(set(range(n)) - set(res['exp_self']))
     lines = [f'case {cid} n={n} K={case["K"]} fail={",".join(map(str, fail))} seed={case["seed"] % 100000}']
     lines.append('handled ' + ','.join(map(str, res.get('handled') or [])))
     if res.get('joined'):
@@ -294,12 +341,18 @@ def _size(case, i):
     return case['size']
 
 
+_TAG = ['child']
+
+
 def _emit(case, lo, hi):
     import logging
     loggers = {nm: logging.getLogger(nm) for nm in NAMES + [SYNC]}
     for i in range(lo, hi):
         name, lvl = rec_name_level(case, i)
-        loggers[name].log(lvl, '%d|%s', i, 'x' * _size(case, i))
+        if case.get('unconf'):
+            loggers[name].log(lvl, '%s|%d|%s', _TAG[0], i, 'x' * _size(case, i))
+        else:
+            loggers[name].log(lvl, '%d|%s', i, 'x' * _size(case, i))
 
 
 class EndError(Exception):
@@ -412,6 +465,8 @@ def _inner(case):
             if ev is not None and record.name == SYNC:
                 ev.set()
 
+    if case.get('unconf'):
+        return _inner_unconf(case, out, t0)
     side = open(_SIDE_PATH[0], 'w') if case.get('prog_exit') and _SIDE_PATH[0] else None
     lv = case.get('levels')
     sync_seen = {cut: threading.Event() for cut in lv['cuts']} if lv else {}
@@ -478,6 +533,75 @@ def _inner(case):
     _settle(handled)
     out['exitcode'] = p.exitcode
     out['handled'] = list(handled)
+    out['t_total'] = round(time.time() - t0, 3)
+    return out
+
+
+def _inner_unconf(case, out, t0):
+    """the parent program does not install any recording handler; its own stderr goes to the side file"""
+    import logging
+    import threading
+    sys.stderr = open(_SIDE_PATH[0], 'w', buffering=1)      # the parent's stderr only; the children keep fd 2
+    if case['unconf'] == 'noprop':
+        h = logging.StreamHandler()
+        h.setFormatter(logging.Formatter('ROOT:%(message)s'))
+        logging.getLogger().addHandler(h)
+        logging.getLogger('cfg.b').propagate = False          # and no handler of its own
+    # 1. the records emitted in the parent itself
+    _TAG[0] = 'self'
+    _emit(case, 0, n_total(case))
+    _TAG[0] = 'child'
+    sys.stderr.flush()
+
+    def child_lines():
+        with open(_SIDE_PATH[0]) as f:
+            return sum(1 for line in f if 'child|' in line)
+
+    # 2. the same records emitted in a child
+    box = []
+    if case['via'] == 'pool':
+        from mpservice.multiprocessing import Pool
+
+        def call():
+            try:
+                pool = Pool(1)
+                scen_proc._KEEP.append(pool)
+                got = [pool.apply(pool_task, (case, x)) for x in range(case['calls'])]
+                assert got == list(range(case['calls']))
+                pool.close()
+                pool.join()
+                box.append(('ret', None))
+            except BaseException as e:  # noqa
+                box.append(('raise', e))
+            box.append(child_lines())
+    else:
+        from mpservice.multiprocessing import Process
+        p = Process(target=log_target, args=(case,))
+        p.start()
+        scen_proc._KEEP.append(p)
+
+        def call():
+            try:
+                r = p.join() if case['first'] == 'join' else p.result()
+                box.append(('ret', r))
+            except BaseException as e:  # noqa
+                box.append(('raise', e))
+            box.append(child_lines())
+
+    th = threading.Thread(target=call, daemon=True)
+    th.start()
+    th.join(HANG_BOUND + (20 if case['via'] == 'pool' else 0))
+    out['joined'] = not th.is_alive()
+    if out['joined']:
+        out['at_join'] = box[1]
+        if case['via'] == 'pool':
+            out['ending'], out['ending_ok'] = f'{box[0][0]}:{box[0][1]!r}'[:80], box[0][0] == 'ret'
+        else:
+            out['ending'], out['ending_ok'] = _ending(case, *box[0])
+    time.sleep(0.3)
+    sys.stderr.flush()
+    out['exitcode'] = (0 if out['joined'] else None) if case['via'] == 'pool' else p.exitcode
+    out['handled'] = None           # read from the side file by the outer runner
     out['t_total'] = round(time.time() - t0, 3)
     return out
 
